@@ -2,7 +2,7 @@
    Print Assumptions. Models: coq/C07/Model.v (tied to /repo by the correspondence check). *)
 From Coq Require Import List NArith ZArith Bool.
 From LTV Require Import Common.Bytes.
-From LTV.C07 Require Import Model Proofs ProofsDec ProofsSafe ProofsRT ProofsFaith ProofsAgree ProofsSkip.
+From LTV.C07 Require Import Model Proofs ProofsDec ProofsSafe ProofsRT ProofsFaith ProofsAgree ProofsSkip ProofsRTS.
 Import ListNotations.
 Local Open Scope N_scope.
 
@@ -94,14 +94,13 @@ Theorem decoders_agree : forall l v1 f1 r1 v2 f2 r2,
 Proof. exact ProofsAgree.decoders_agree. Qed.
 Print Assumptions decoders_agree.
 
-(* Stream round trip, PARTIAL: the stream reader returns the tree or rejects. Missing for the
-   full statement: that it rejects only when a string exceeds its 32 MiB cap (the correspondence
-   run covers the acceptance side on generated trees). *)
-Theorem enc_dec_stream_partial : forall v r,
-  wf v -> height v < depth_limit_c -> N.of_nat (length (enc v ++ r)) < two31 ->
-  decode_stream (enc v ++ r) = Ok (v, false) r \/ decode_stream (enc v ++ r) = Reject.
-Proof. exact ProofsAgree.enc_dec_stream_partial. Qed.
-Print Assumptions enc_dec_stream_partial.
+(* Stream round trip (full): for well-formed trees whose strings and keys are within the stream
+   reader's 32 MiB cap (sok), the stream reader returns exactly the tree and stops at r *)
+Theorem enc_dec_stream : forall v r,
+  wf v -> ProofsRTS.sok v -> height v < depth_limit_stream -> N.of_nat (length (enc v ++ r)) < two31 ->
+  decode_stream (enc v ++ r) = Ok (v, false) r.
+Proof. exact ProofsRTS.enc_dec_stream. Qed.
+Print Assumptions enc_dec_stream.
 
 (* The full faithfulness statement is FALSE for the stream reader (libstdc++ number parsing):
    recorded finding class stream-istream-number-liberal; witness "i 1e" decodes to 1. *)
